@@ -28,7 +28,7 @@ RUN_WALL_S = 20
 N_SWEEP = 14
 TIERS = {
     "quick": {"cases": 24000, "episode": 100, "selftest": 48, "wall_cap_s": 600, "shrink_s": 45},
-    "thorough": {"cases": 2_000_000, "episode": 500, "selftest": 512, "wall_cap_s": 3 * 3600, "shrink_s": 120, "distinct_sample": 4},
+    "thorough": {"cases": 2_000_000, "episode": 500, "selftest": 512, "wall_cap_s": 3 * 3600, "shrink_s": 120},
 }
 RULE = ("cases 0..149 are the exhaustive sweep: for every n in 0..14 one describe-packets listing and one parse --packet i "
         "for every i in 0..n+1 (complete files, k=0); later cases draw, from one seed, n (0..14, sometimes up to 60), the "
